@@ -596,8 +596,8 @@ fn process(out: &mut Out, v: &Value) {
                     cfg
                 };
                 let chk_with = |cfg: &ServerConfig, token: &[u8], remote: SocketAddr| match vc::token_check(cfg, token, &dst, remote) {
-                    Ok((r, o, val)) => json!({"err": false, "rscid": opt(r, |x| jbytes(&x)), "odcid": jbytes(&o), "validated": val}),
-                    Err(()) => json!({"err": true}),
+                    Some((r, o, val)) => json!({"err": false, "rscid": opt(r, |x| jbytes(&x)), "odcid": jbytes(&o), "validated": val}),
+                    None => json!({"err": true}),
                 };
                 let chk = |token: &[u8], remote: SocketAddr| chk_with(&mk_cfg(), token, remote);
                 let cfg = mk_cfg();
@@ -609,7 +609,7 @@ fn process(out: &mut Out, v: &Value) {
                 let mut rejected = 0;
                 let muts = mutations(&bytes);
                 for m in &muts {
-                    if let Ok((None, o, false)) = vc::token_check(&cfg, m, &dst, addr) {
+                    if let Some((None, o, false)) = vc::token_check(&cfg, m, &dst, addr) {
                         if o == dst {
                             rejected += 1;
                         }
@@ -637,8 +637,8 @@ fn process(out: &mut Out, v: &Value) {
                 cfg.retry_token_lifetime(Duration::from_secs(u32::MAX as u64));
                 let remote = SocketAddr::new(IpAddr::V4(Ipv4Addr::new(192, 0, 2, 7)), 4433);
                 let res = match vc::token_check(&cfg, &sealed, &dst, remote) {
-                    Ok((r, o, val)) => json!({"err": false, "rscid": opt(r, |x| jbytes(&x)), "odcid": jbytes(&o), "validated": val}),
-                    Err(()) => json!({"err": true}),
+                    Some((r, o, val)) => json!({"err": false, "rscid": opt(r, |x| jbytes(&x)), "odcid": jbytes(&o), "validated": val}),
+                    None => json!({"err": true}),
                 };
                 json!({"k": "TokenRaw", "plain": v["plain"], "dst": v["dst"], "res": res})
             });
